@@ -20,7 +20,7 @@ CLAIMED = {
               'strided or cropped views; copy and in-place forms), a fit / OPD-update / re-fit history, DispersiveTilt elements of trace/dispersion '
               'order 1-3 on both sides of the reference wavelength mixed with Tilt elements (also re-pointed by their owner after use), per-axis '
               'pupil sampling, output masks, one segment steered off the detector, the same fields listed in reverse order, fit / rescale / '
-              're-fit histories -- under cache-size faults, and compared with the eager twin (every tilt as '
+              're-fit histories, an FFT attempt on the tilt-carrying wavefront before the judged DFT -- under cache-size faults, and compared with the eager twin (every tilt as '
               'an OPD ramp in a monolithic pupil) on the samples every Field of both evaluates. Further oracles: Field.shift and the '
               'observed window placement equal the statement\'s displacement (focal_length*angle/du*oversample per axis, +x to increasing '
               'row, +y to decreasing column) and are additive and order-independent; fit_tilt leaves zero least-squares tip/tilt, keeps '
@@ -59,7 +59,8 @@ CLAIMED = {
               'interleaved by a seeded scheduler with injected refusals (biased to land right after a type transition), duplicate '
               'calls and cache/RNG perturbations. Every step is judged against the multiplication-rules table and the ptype/class '
               'table parsed at run time from the documentation; refused steps are bracketed by byte snapshots of both operands; '
-              'a new wavefront has the type it was given (none when given none); '
+              'a new wavefront has the type it was given (none when given none) and so has every plane built with an explicit ptype= object; '
+              'refused type assignments and pupils without sampling information are part of the programs; '
               'each caller\'s interleaved outcomes must equal its solo run. A directed prelude guarantees all 15 cells, the three '
               'propagation cases and every class x allowed type are exercised on every run. Exploration, not proof: the type '
               'machine is finite (and the prelude covers it completely), the surrounding programs are sampled.'),
@@ -74,7 +75,7 @@ CLAIMED = {
               'the loop: pre-filled with NaN/inf/garbage, stale from the previous wavelength afterwards, sized exactly as '
               'lentil.scratch_shape advertises, larger, or one short, C- or Fortran-ordered or a window of a larger work area; refused calls '
               '(oversize shape -- also kept in a caller-owned integer array --, tilt-carrying wavefront from a Tilt plane / Wavefront(tilt=) / fitted pupil / '
-              'DispersiveTilt / Grism, short scratch), an out-of-regime quick look on the same wavefront first, the field view read and edited before a call are injected inside the loop, propagations are duplicated and the '
+              'DispersiveTilt / Grism, an image-plane result given tilt and sent back, short scratch), an out-of-regime quick look on the same wavefront first, the field view read and edited before a call are injected inside the loop, propagations are duplicated and the '
               'scratch re-dirtied between duplicates. Oracles: scratch result == no-scratch result; both == the real propagate_dft '
               'evaluated at the wavelength the FFT result reports; result metadata; acceptance/refusal set; refusals leave scratch and '
               'wavefront bytes unchanged; earlier results stay byte-identical while the scratch is reused (no aliasing). Exploration.'),
@@ -87,11 +88,12 @@ CLAIMED = {
               'shapes and out=, Zernike, array utilities, shapes, detector chain, seeded noise models, spectrum arithmetic and queries, a shared '
               'dispersive element used at several wavelengths, documented in-place operations on objects derived from shared ones, '
               'one-argument-varied repeats of calls, calls refused for invalid arguments, attribute-update paths, arguments kept in caller-owned '
-              'arrays, and calls generated from a type-aware catalogue of the whole public surface with optional arguments, dtypes, layouts and '
+              'arrays (also the optional coordinate grids of the Zernike family), derivations through Material / path_* edited in place, and calls generated from a type-aware catalogue of the whole public surface with optional arguments, dtypes, layouts and '
               'containers varied) are '
               'interleaved by a seeded scheduler together with cache-size changes/clears, global-RNG draws and reseeds, duplicate calls and '
               '(one run in four) read-only caller arrays. Oracles: byte snapshot of every store entry around every call (alias-aware '
-              'whitelist for documented in-place calls); repeat = first; each caller\'s interleaved outcome sequence = its solo run in a '
+              'whitelist for documented in-place calls) together with the process-wide policy no call may change (numpy error state and '
+              'print options, warnings filters, recursion limit, environment); repeat = first; each caller\'s interleaved outcome sequence = its solo run in a '
               'pristine world; global RNG state unchanged around every seeded/deterministic call; construct-then-fit vs fit/update/refit '
               'paths to the same plane state image identically (premise checked from public state); C10.fresh: sampled calls are re-issued on '
               'public-state clones of their arguments in a pristine process (forked from a helper that never executes lentil) and must give the '
@@ -109,11 +111,11 @@ CLAIMED = {
               'option, scalar / vector / reflected operands and operands that must be refused (wrong-length vector, non-numeric), edits of '
               'results, and -- the history dimension -- to(unit) calls by the owner on shared spectra between uses, followed by a repeat of an '
               'earlier operation and by operand-swapped twins; operands with an edit history, integer-typed spectra, list / tuple / ndarray '
-              'operands, augmented-assignment forms, callers writing in place into result and operand arrays before an operation is repeated. Oracles: result == operator applied to the operands\' interpolated values on '
+              'operands, augmented-assignment forms, the products a Material hands out (read again after the caller edited the previous answer), callers writing in place into result and operand arrays before an operation is repeated. Oracles: result == operator applied to the operands\' interpolated values on '
               'the uniform union grid (list model + scipy interp1d, executed from the operands\' public pre-state); scalar/vector ops '
               'element-wise on the unchanged grid; a+b == b+a and a*b == b*a as physical spectra; same operation after a representation '
               'change gives the same physical spectrum; every spectrum in the store other than a documented edit target is byte-identical '
-              '(representation included) after every call; result is a new object; other callers\' results equal their solo runs '
+              '(representation included) after every call; result is a new object (neither an operand nor any spectrum handed out before); other callers\' results equal their solo runs '
               'numerically. Exploration.'),
         note=('Comparisons "as physical spectra" are made only where the left operand\'s value-unit label is a correct label for the result '
               '(unitless with unitless; density*/unitless; density+-density) and fill value 0 when densities are involved; grid length is '
@@ -126,7 +128,7 @@ CLAIMED = {
               'values, all four wavelength units) while a reader (same or second caller) issues integrate/bin/sample and composite '
               'linearity/additivity checks between any two edits (also in foreign units, with one option flipped, after value assignment or in-place '
               'writes through the value array), sometimes scaling in place the array a query returned and asking again; about 30% of edits are ones that must be refused (unsorted, duplicated or '
-              'non-positive resample grid, touching/overlapping append, bad unit or method) -- the library\'s analogue of a crash between two '
+              'non-positive resample grid, a bare number as the grid, touching/overlapping append, bad unit or method) -- the library\'s analogue of a crash between two '
               'writes -- and accepted crops/trims/pads are duplicated. After EVERY step, accepted or refused, every spectrum must be '
               'well-formed (strictly increasing positive wavelengths, one value per wavelength, asarray() usable); each edit\'s post-state is '
               'predicted by a list model from the object\'s own public pre-state (closed-range crop, first-to-last-above-tolerance trim, '
@@ -140,13 +142,15 @@ CLAIMED = {
         design='7.9',
         text=('Seeded deterministic simulation in which the simulator owns numpy\'s global random generator: 2-4 callers issue seeded '
               'model calls (Poisson and Gaussian shot noise, read noise, dark current with/without fixed-pattern noise, rule-07 dark '
-              'current, power-spectrum surface error on square and non-square masks; int and array seeds) and unseeded cosmic-ray frames in '
+              'current, power-spectrum surface error on square and non-square masks of several dtypes; seeds as ints, numpy integers, uint32 arrays, lists '
+              'and tuples; shapes as lists, tuples and arrays; caller-owned full-shape rate maps; zero-noise readouts) and unseeded cosmic-ray frames in '
               'an interleaved schedule while environment events draw from or reseed the global generator between steps, calls are '
               'duplicated, and signals that must be refused (a negative pixel -- also one that is tiny next to the frame peak --, an all-negative '
               'frame, a pixel above 9.22e18, a frame its owner made illegal in place between two calls) and dark rates at floating-point edges (just '
               'below an integer, 2**40+1), seeds that differ only beyond bit 32 / 64, one-argument twins of every call, frames with zero-signal '
               'pixels and one megapixel-plus frame are injected; frames a caller still holds must not change when anybody draws again; sampled '
-              'calls are compared with the same call in a pristine process. Oracles: a seeded '
+              'calls are compared with the same call in a pristine process; every array argument is snapshotted around every call and no result may '
+              'share memory with an argument. Oracles: a seeded '
               'result is bit-identical across repeats, across positions in the schedule and across global-RNG states (interleaved pass vs '
               'solo pass started from a different global seed); the global state is untouched by every seeded call; different seeds give '
               'different frames; support (integer, non-negative, floor(rate), zero outside the mask, exact RMS, refusals in both shot-noise '
